@@ -31,8 +31,8 @@ const c10D = 10 * time.Millisecond
 
 type c10World struct {
 	e        *rig.Env
-	waitSubs []string                                 // subscriptions the waiters wait on
-	writer   func(ctx context.Context) error          // the committing change
+	waitSubs []string                                  // subscriptions the waiters wait on
+	writer   func(ctx context.Context) error           // the committing change
 	check    func(rm []*pubsubpb.ReceivedMessage) bool // optional extra check of what the waiter got
 }
 
